@@ -463,11 +463,34 @@ func bounded(fn *ssa.Function, v ssa.Value, k int64, upper bool, at *ssa.BasicBl
 			}
 		}
 	}
+	// int(f) >= 8 is a fact about f when the conversion keeps the value (same-size integer types)
+	unconv := func(v ssa.Value) ssa.Value {
+		for i := 0; i < 3; i++ {
+			switch x := v.(type) {
+			case *ssa.ChangeType:
+				v = x.X
+				continue
+			case *ssa.Convert:
+				if sameIntSize(x.X.Type(), x.Type()) {
+					v = x.X
+					continue
+				}
+			}
+			break
+		}
+		return v
+	}
 	fact := func(w ssa.Value) func(eng.Fact) bool {
 		return func(f eng.Fact) bool {
 			op, x, y, ok := f.Cmp()
 			if !ok {
 				return false
+			}
+			if ux := unconv(x); ux != x && eng.SameValue(ux, w) {
+				x = ux
+			}
+			if uy := unconv(y); uy != y && eng.SameValue(uy, w) {
+				y = uy
 			}
 			if eng.SameValue(y, w) && !eng.SameValue(x, w) {
 				x, y = y, x
